@@ -312,7 +312,15 @@ where
 
                 let mut info_hashes_by_worker: BTreeMap<usize, Vec<InfoHash>> = BTreeMap::new();
 
-                for info_hash in info_hashes.into_iter() {
+                // Apply the limit to the request as a whole, before splitting
+                // it up. Otherwise each swarm worker applies it to its own
+                // part and the merged response can list more torrents than
+                // max_scrape_torrents.
+                let num_to_take = info_hashes
+                    .len()
+                    .min(self.config.protocol.max_scrape_torrents);
+
+                for info_hash in info_hashes.into_iter().take(num_to_take) {
                     let info_hashes = info_hashes_by_worker
                         .entry(calculate_request_consumer_index(&self.config, info_hash))
                         .or_default();
